@@ -46,7 +46,7 @@ c.ensures('decoded', 'implies(len(encoded_payload) > 0, '
 c.modifies('self.packets')   # fields of the freshly built packets are outside every frame
 c.loop(0, index='i', elem_ty=Ref('Packet'),
        invariants=[('decoded-so-far',
-                    'forall(lambda k: packet_is(comp[k], encoded_packets[k]), 0, i)'),
+                    'forall(lambda k: packet_is(comp[k], xs[k]), 0, i)'),
                    ('types-are-digits', 'forall(lambda k: 0 <= comp[k].packet_type and '
                     'comp[k].packet_type <= 9, 0, i)'),
                    ('allocated', 'forall(lambda k: comp[k] <= alloc_now(), 0, i)')],
